@@ -41,7 +41,7 @@ POOL_NOTE = ("Trusted: the harness (reference model, executor, libc clock interp
              "Bulk search uses the 2-gate stub circuit the repository's own pool tests use; pool operations are atomic because the API takes &mut self.")
 add("C19", "exploration", "deterministic simulation of the miner service (virtual clock, faulty network, seeded schedules) against a sequential reference model of admission",
     "DESIGN.md 5, 9/C19",
-    "Seeded search over operation histories of the real ProofPool under a simulator-owned clock: every push is decided independently by a sequential model of the documented rules, the verification notifier decides rule ORDER (no error strings), and the full private state is compared after every operation. Sampling, not proof: a clean batch is evidence over the explored histories.",
+    "Seeded search over operation histories of the real ProofPool under a simulator-owned clock: every push is decided independently by a sequential model of the documented rules that keeps its own fixed-window budget state, the verification notifier decides rule ORDER (no error strings), and the full private state is compared after every operation. Limit settings include fractional, sub-second, off-by-one-nanosecond, never-ending (Duration::MAX) windows and unlimited (usize::MAX) caps; one run in three concentrates on a hot key. A panic inside a pool call is a finding. Sampling, not proof: a clean batch is evidence over the explored histories.",
     POOL_NOTE)
 add("C20", "exploration", "deterministic simulation; invariants evaluated on the real pool's state after every simulated event",
     "DESIGN.md 5.4 O-invariants, 9/C20",
@@ -49,11 +49,11 @@ add("C20", "exploration", "deterministic simulation; invariants evaluated on the
     POOL_NOTE)
 add("C21", "exploration", "deterministic simulation; custody oracle over recorded histories with proving jobs holding snapshots across evictions",
     "DESIGN.md 5.4 O-custody, 9/C21",
-    "After every operation the multiset of pooled proofs may change only by the removal set the documented semantics give for that operation; eviction counts, remove_bucket results and snapshot contents are compared with the model and every snapshot is fed to the real public-batch preflight.",
+    "After every operation the multiset of pooled proofs may change only by the removal set the documented semantics give for that operation; eviction counts, remove_bucket results and snapshot contents (and the admission order of what stays) are compared with the model and every snapshot is fed to the real public-batch preflight. Expiry is also called with the operator's boundary settings (never expire = Duration::MAX, zero cutoff) and aimed at partial expiry of deep buckets.",
     POOL_NOTE)
 add("C22", "exploration", "deterministic simulation with clock advances aimed at window boundaries (exact, +-1 ns, during verification); verification-call counter per window",
     "DESIGN.md 5.4 O-verify/O-budget, 9/C22",
-    "Counts real verifier invocations per pool window over seeded histories whose clock is advanced to window boundaries exactly and by one nanosecond either side, in the middle of bursts and during a verification; checks the counter/window state after every push and the per-window bound over the recorded history.",
+    "Counts real verifier invocations per pool window over seeded histories whose clock is advanced to window boundaries exactly and by one nanosecond either side, in the middle of bursts and during a verification; checks the counter/window state after every push against the model's own fixed-window state (the window must restart exactly at the first push that reaches the budget test once a full window has elapsed, and only then) and the per-window bound over the recorded history. Windows are whole, fractional, sub-second, one nanosecond off a whole second, and never-ending.",
     POOL_NOTE)
 
 PENDING = {}
